@@ -3,6 +3,8 @@ CONSTANTS
   MaxVariants = 2
   MaxFields = 2
   VMenu = {"none", "ren", "ghostd", "ghost", "hint_tuple", "hint_struct", "hint_unit", "hint_tuple_ded"}
-  FMenu = {"none", "ren", "expr", "renexpr", "swap", "swapexpr", "ghostd"}
+  FMenu = {"none", "ren", "expr", "ghostd"}
+  VGs = {0}
+  EGs = {0}
 INVARIANTS Emit Symmetric
 CHECK_DEADLOCK FALSE
